@@ -156,13 +156,27 @@ func validate(c *vm.Ctx, img []byte, model map[[2]int][]byte, h *hist, full bool
 
 func runHistory(c *vm.Ctx, r *vm.Rand, hi int, nops int, flavour string, big bool) {
 	h := &hist{kind: flavour}
+	withBystander := hi%8 == 1
+	if withBystander {
+		h.kind += ", every operation followed by one on a second region with a file of its own"
+	}
 	st := &store{kind: flavour}
 	var reg *region.Region
 	var err error
+	var foreignChunks map[[2]int][]byte
+	var foreignFree []int
+	staleStart := false
 	open := func() (io.ReadWriteSeeker, error) { return nil, nil }
 	switch flavour {
 	case "mem":
 		st.mem = &inject.RecFile{}
+		if hi%4 == 3 {
+			// the region is created over a store that already holds bytes (a file that was not truncated): they are no
+			// part of the new region, whose header says that every sector after it is free
+			st.mem.B = r.Bytes([]int{1, 5000, 8192, 8193, 40000}[r.Intn(5)])
+			h.add(fmt.Sprintf("the store holds %d stale bytes when the region is created in it", len(st.mem.B)))
+			staleStart = true
+		}
 		reg, err = region.CreateWriter(st.mem)
 		open = func() (io.ReadWriteSeeker, error) { st.mem.Seek(0, 0); return st.mem, nil }
 	case "mem+writerat":
@@ -170,6 +184,20 @@ func runHistory(c *vm.Ctx, r *vm.Rand, hi int, nops int, flavour string, big boo
 		st.mem = &fa.RecFile
 		reg, err = region.CreateWriter(fa)
 		open = func() (io.ReadWriteSeeker, error) { fa.Seek(0, 0); return fa, nil }
+	case "mem+shortreads":
+		// a backing store whose Read hands out a few bytes per call, as an io.Reader may
+		st.mem = &inject.RecFile{}
+		sf := &shortReadFile{RecFile: st.mem, plan: shortPlans[hi%len(shortPlans)]}
+		reg, err = region.CreateWriter(sf)
+		open = func() (io.ReadWriteSeeker, error) { st.mem.Seek(0, 0); return sf, nil }
+	case "mem+foreign":
+		// the history starts from a region file another program left behind (see regiongen.ForeignImage)
+		img, chunks, free := regiongen.ForeignImage(r, r.Range(1, 14))
+		st.mem = &inject.RecFile{B: img}
+		foreignChunks, foreignFree = chunks, free
+		h.add(fmt.Sprintf("prepared file of %d bytes holding %d chunks, %d free sectors inside; Load", len(img), len(chunks), len(free)))
+		reg, err = region.Load(st.mem)
+		open = func() (io.ReadWriteSeeker, error) { st.mem.Seek(0, 0); return st.mem, nil }
 	case "osfile":
 		st.path = filepath.Join(c.OutDir, fmt.Sprintf("r.%s.%d.%d.mca", c.Mode, c.Shard, hi))
 		os.Remove(st.path)
@@ -188,12 +216,45 @@ func runHistory(c *vm.Ctx, r *vm.Rand, hi int, nops int, flavour string, big boo
 	h.reg = func() *region.Region { return reg }
 	model := map[[2]int][]byte{}
 	freed := map[int]bool{} // sectors that were used once and released (for event classification)
+	spare := map[[2]int]bool{} // chunks of a prepared file whose run has more sectors than their data needs
+	for k, v := range foreignChunks {
+		model[k] = v
+		if _, cnt := entryOf(st.mem.B, k[0], k[1]); cnt > (len(v)+4+4095)/4096 {
+			spare[k] = true
+		}
+	}
+	for _, s := range foreignFree {
+		freed[s] = true
+	}
+	if foreignChunks != nil && !validate(c, st.mem.B, model, h, true, [2]int{-1, -1}, "Load of the prepared file") {
+		return
+	}
+	var held []heldRead // what earlier ReadSector calls returned, looked at again after later operations
 	ops := regiongen.Gen(r, nops, big)
 	c.EvalN(int64(len(ops)), vm.HashStr("hist", flavour, fmt.Sprint(c.Shard, hi)), true)
 	ok := true
 	pan := c.Guard("ops", h.wit, func() {
 		for _, op := range ops {
 			key := [2]int{op.X, op.Z}
+			// what ReadSector returned earlier belongs to the caller: later operations must not reach into it
+			for _, hr := range held {
+				if !bytes.Equal(hr.got, hr.want) {
+					hw := h.wit().(map[string]any)
+					hw["chunk"], hw["read_at_op"] = hr.key, hr.at
+					c.Violation("read/returned-bytes-changed-later", fmt.Sprintf("the %d bytes ReadSector(%d,%d) returned at operation %d were right then and have changed since", len(hr.want), hr.key[0], hr.key[1], hr.at), hw)
+					ok = false
+					return
+				}
+			}
+			if len(held) > 0 {
+				c.Cover("read.earlier-results-still-intact")
+			}
+			if withBystander {
+				if !theBystander.step(c, h) {
+					ok = false
+					return
+				}
+			}
 			switch op.Kind {
 			case "write":
 				data := regiongen.Payload(op)
@@ -206,9 +267,19 @@ func runHistory(c *vm.Ctx, r *vm.Rand, hi int, nops int, flavour string, big boo
 				}
 				h.add(fmt.Sprintf("WriteSector(%d,%d,%d bytes)", op.X, op.Z, op.Size))
 				tsBefore := slotOf(imgBefore, op.X, op.Z)
+				// the library gets a slice of its own (with spare capacity behind it), which the caller overwrites as soon
+				// as the call has returned: the region must not depend on it any longer
+				given := append(make([]byte, 0, len(data)+64), data...)
 				t0 := time.Now().Unix()
-				werr := reg.WriteSector(op.X, op.Z, data)
+				werr := reg.WriteSector(op.X, op.Z, given)
 				t1 := time.Now().Unix()
+				for i := range given {
+					given[i] = 0xa5
+				}
+				given = given[:cap(given)]
+				for i := len(data); i < len(given); i++ {
+					given[i] = 0x5a
+				}
 				img := st.image()
 				if op.Size > regiongen.MaxOK {
 					if werr == nil {
@@ -311,6 +382,15 @@ func runHistory(c *vm.Ctx, r *vm.Rand, hi int, nops int, flavour string, big boo
 				if op.Size == regiongen.MaxOK {
 					c.Cover("write.maximum-size")
 				}
+				if spare[key] {
+					// the first write to a chunk whose run in the prepared file was longer than its data needed
+					delete(spare, key)
+					if nsec == osec && ncnt == ocnt {
+						c.Cover("foreign.chunk-with-spare-sectors.overwritten-in-place")
+					} else {
+						c.Cover("foreign.chunk-with-spare-sectors.relocated")
+					}
+				}
 				// every chunk's stored bytes are compared after every write (the parse has walked the file anyway):
 				// damage to another chunk must not be able to hide behind a later rewrite of that chunk
 				if !validate(c, img, model, h, true, key, fmt.Sprintf("WriteSector(%d,%d,%d bytes)", op.X, op.Z, op.Size)) {
@@ -349,6 +429,10 @@ func runHistory(c *vm.Ctx, r *vm.Rand, hi int, nops int, flavour string, big boo
 						return
 					}
 					c.Cover("read.present")
+					held = append(held, heldRead{key: key, got: got, want: want, at: len(h.ops)})
+					if len(held) > 3 {
+						held = held[1:]
+					}
 				} else {
 					if rerr == nil {
 						c.Violation("read/never-written-present", fmt.Sprintf("ReadSector(%d,%d) returned %d bytes for a chunk that was never written", op.X, op.Z, len(got)), h.wit())
@@ -487,6 +571,12 @@ func runHistory(c *vm.Ctx, r *vm.Rand, hi int, nops int, flavour string, big boo
 	if pan || !ok {
 		return
 	}
+	if withBystander {
+		c.Cover("two-handles.operations-alternate")
+	}
+	if staleStart {
+		c.Cover("history.created-over-stale-content")
+	}
 	c.Cover("history." + flavour)
 	if hi == 0 {
 		c.Sample("history", h.wit())
@@ -499,7 +589,10 @@ func run(c *vm.Ctx) {
 	for i := 0; i < n; i++ {
 		flavour := []string{"mem", "mem+writerat", "mem", "mem+writerat", "osfile"}[i%5]
 		if flavour == "osfile" && !c.Thorough() && i%20 != 4 {
-			flavour = "mem"
+			flavour = "mem+shortreads"
+		}
+		if i%10 == 2 {
+			flavour = "mem+foreign"
 		}
 		nops := r.Range(1, 400)
 		if i%3 == 0 {
